@@ -92,6 +92,16 @@ type c04Case struct {
 	// "relative" / "dot_relative" relative to the working directory ("t", "./t"), "symlink"
 	// through a symbolic link to its parent directory. All of them name the same directory.
 	DirForm string `json:"dir_form,omitempty"`
+	// TolerateDirMode is set by the generator only, and only while the known finding
+	// c04.implicit_parent_hides_dir_mode is recorded (three cases in four): the case keeps the
+	// input shapes of that finding (a directory with an explicit entry in a lower layer that a
+	// later layer only implies; a directory entry that follows one of its children in the tar)
+	// instead of being stripped of them. The finding explains ONE observable of such a directory,
+	// its mode, so for exactly those directories, in exactly the views c04DirModeExplained names,
+	// the mode may be the expected one or the synthesised d---------; everything else (existence,
+	// kind, children, contents, sizes and modes of what lies beneath) is compared as in any other
+	// case. Witness replay files never carry the flag: they are decided strictly.
+	TolerateDirMode bool `json:"tolerate_dir_mode,omitempty"`
 }
 
 var c04DirForms = []string{"", "", "", "slash", "dots", "relative", "dot_relative", "symlink"}
@@ -856,6 +866,106 @@ func dirModeBits(l tarimg.Layer, p string) fs.FileMode {
 	return 0
 }
 
+// Shapes of c04.implicit_parent_hides_dir_mode (value of the per-view maps of
+// c04DirModeExplained).
+const (
+	dmExplicitBelow = "explicit_below_implicit_here"
+	dmEntryAfter    = "dir_entry_after_child"
+)
+
+// c04DirModeExplained computes what the known finding c04.implicit_parent_hides_dir_mode
+// explains, from the layers (as the loader sees them: without dropped entries) and their
+// reference views alone: perLayer[k] maps the directories whose MODE may be the synthesised
+// d--------- in the view up to layer k to the shape that causes it. The finding: the loader
+// keeps, per layer, what it meets first for a path. A directory met first as the parent of
+// another entry (a file, link, directory, whiteout or opaque marker beneath it) gets a stand-in
+// node without mode; the directory's own entry later in the same tar is then skipped, and so is
+// the entry of any lower layer. Hence a directory P is in perLayer[k] when
+//   - the reference says P is an explicitly carried directory with non-zero mode bits in view k, and
+//   - the newest layer j <= k that mentions P at all (own entry, or something beneath it) meets it
+//     first through something beneath it.
+//
+// An entry for P that is met first in its tar (layer j' > j) ends it: from view j' on the mode is
+// compared strictly again. shapes counts what occurred.
+func c04DirModeExplained(layers []tarimg.Layer, views []overlay.View) (perLayer []map[string]string, shapes map[string]bool) {
+	perLayer = make([]map[string]string, len(layers))
+	shapes = map[string]bool{}
+	const (
+		metImplied = 1 + iota // first met as the parent of another entry
+		metOwnEntry
+	)
+	cur := map[string]string{}
+	for k, l := range layers {
+		met := map[string]int{}
+		viaMarker := map[string]bool{}
+		for _, e := range l.Entries {
+			op := overlay.Interpret(e)
+			var own, below string // the node the entry creates; the deepest directory it lies in
+			switch op.Kind {
+			case overlay.OpPut:
+				own, below = op.Path, path.Dir(op.Path)
+			case overlay.OpWhiteout:
+				own, below = op.Path, path.Dir(op.Path) // a (whiteout) node at the target's path
+			case overlay.OpOpaque:
+				below = op.Path // a marker file inside the directory
+			default:
+				continue
+			}
+			if own != "" {
+				if met[own] == metImplied {
+					continue // the loader skips an entry whose path it already holds
+				}
+				met[own] = metOwnEntry
+			}
+			for a := below; a != "/" && a != "."; a = path.Dir(a) {
+				if met[a] == 0 {
+					met[a] = metImplied
+					viaMarker[a] = op.Kind != overlay.OpPut
+				}
+			}
+		}
+		next := map[string]string{}
+		for p, shape := range cur {
+			// not mentioned by this layer: the view keeps the node of the layer below
+			if n, ok := views[k][p]; met[p] == 0 && ok && n.Kind == overlay.Dir && !n.Implicit {
+				next[p] = shape
+				shapes["carried_into_later_view"] = true
+			} else if met[p] == metOwnEntry {
+				shapes["ended_by_later_entry_met_first"] = true
+			}
+		}
+		for p, m := range met {
+			if m != metImplied {
+				continue
+			}
+			n, ok := views[k][p]
+			if !ok || n.Kind != overlay.Dir || n.Implicit || n.ModeBits() == 0 {
+				continue
+			}
+			shape := dmExplicitBelow
+			if n.Layer == k {
+				shape = dmEntryAfter
+			}
+			next[p] = shape
+			shapes[shape] = true
+			if overlay.Depth(p) >= 2 {
+				shapes[shape+"_depth_ge2"] = true
+			}
+			if viaMarker[p] {
+				shapes["first_met_through_marker"] = true
+			}
+			if n.Special != 0 {
+				shapes["special_bits_expected"] = true
+			}
+			if _, again := cur[p]; again {
+				shapes["arises_again_in_later_layer"] = true
+			}
+		}
+		perLayer[k], cur = next, next
+	}
+	return perLayer, shapes
+}
+
 // ---------------------------------------------------------------------------------------
 // Comparison of one view.
 // ---------------------------------------------------------------------------------------
@@ -864,11 +974,44 @@ type c04Stats struct {
 	deadHandles  int
 	emptyReadDir int
 	lookups      int
+	// tolerated directory modes (TolerateDirMode): how often a mode comparison of a directory
+	// the known finding explains saw the synthesised d--------- / the expected mode
+	dirModeSynthesised int
+	dirModeExpected    int
+}
+
+// c04DirTol is the mode tolerance of one view: the directories of c04DirModeExplained.
+type c04DirTol struct {
+	paths map[string]string
+	st    *c04Stats
+}
+
+// infoMatches is c04InfoMatchesNode, except that for a directory the known finding explains
+// the mode may also be exactly the synthesised one: the directory type bit with all permission
+// and special bits zero. Kind (and everything else about the node) is compared as always.
+func (tol *c04DirTol) infoMatches(fi fs.FileInfo, n *overlay.Node) error {
+	err := c04InfoMatchesNode(fi, n)
+	if tol == nil || n.Kind != overlay.Dir || n.Implicit {
+		return err
+	}
+	if _, ok := tol.paths[n.Path]; !ok {
+		return err
+	}
+	if err == nil {
+		tol.st.dirModeExpected++
+		return nil
+	}
+	if fi != nil && fi.Mode() == fs.ModeDir {
+		tol.st.dirModeSynthesised++
+		return nil
+	}
+	return fmt.Errorf("%w (nor the synthesised mode d---------, which %s would explain for this directory)", err, clsImplicitDirMode)
 }
 
 // want is one acceptable outcome of a symlink-following lookup.
 type want struct {
-	r overlay.Result
+	r   overlay.Result
+	tol *c04DirTol // mode tolerance of the view (nil: none)
 }
 
 func (w want) String() string {
@@ -887,14 +1030,17 @@ func (w want) String() string {
 type viewPair struct {
 	must, may overlay.View
 	exact     bool
+	// tol names the directories of this view whose mode a known finding explains (cases with
+	// TolerateDirMode only; nil otherwise)
+	tol *c04DirTol
 }
 
 func (vp viewPair) wants(p string) []want {
-	a := want{overlay.Resolve(vp.may, p, c04Depth)}
+	a := want{overlay.Resolve(vp.may, p, c04Depth), vp.tol}
 	if vp.exact {
 		return []want{a}
 	}
-	b := want{overlay.Resolve(vp.must, p, c04Depth)}
+	b := want{overlay.Resolve(vp.must, p, c04Depth), vp.tol}
 	return []want{a, b}
 }
 
@@ -904,7 +1050,7 @@ func statAgainst(fi fs.FileInfo, err error, w want) error {
 		if err != nil {
 			return fmt.Errorf("fails with %q, expected %v", err, w)
 		}
-		if merr := c04InfoMatchesNode(fi, w.r.Node); merr != nil {
+		if merr := w.tol.infoMatches(fi, w.r.Node); merr != nil {
 			return fmt.Errorf("%w (expected %v)", merr, w)
 		}
 	case overlay.NotExist:
@@ -1005,7 +1151,7 @@ func compareView(fsys scalibrfs.FS, vp viewPair, queries []string, st *c04Stats)
 			if serr != nil {
 				return fmt.Errorf("returns a handle whose Stat fails with %q, expected %v", serr, w)
 			}
-			if merr := c04InfoMatchesNode(fi, w.r.Node); merr != nil {
+			if merr := w.tol.infoMatches(fi, w.r.Node); merr != nil {
 				return fmt.Errorf("returns a handle that %w (expected %v)", merr, w)
 			}
 			if w.r.Node.Kind == overlay.File {
@@ -1126,7 +1272,7 @@ func compareListing(ents []fs.DirEntry, dir string, vp viewPair) error {
 				return fmt.Errorf("lists symlink %q whose Info() has mode %v without the symlink flag", e.Name(), fi.Mode())
 			}
 		default:
-			if merr := c04InfoMatchesNode(fi, n); merr != nil {
+			if merr := vp.tol.infoMatches(fi, n); merr != nil {
 				return fmt.Errorf("lists %q whose Info() %w", e.Name(), merr)
 			}
 		}
